@@ -2493,10 +2493,10 @@ FINDINGS = [
      "what": "solve_goal(x / x = 1), solve_with_interval(x / x >= 1, x Mem [0,1]), solve_with_interval(~(1 / x = 0), x Mem [-1,1]) returned True: SymPy's x/x = 1 and 1/0 = zoo against HOL's x / 0 = 0"},
     {"status": "fixed", "key": "z3:real-literals-as-python-numbers", "commit": "928e63b",
      "what": "solve((if p then (1::real) else 3) / 2 = (if p then 0 else 1)) returned True (integer division on sort Int) and solve(~((2::real) / 6 = 1 / 3)) returned True (Python float division)"},
-    {"status": "fixed", "key": "z3:uminus-on-nat", "commit": "fixes/C06-9.patch",
+    {"status": "fixed", "key": "z3:uminus-on-nat", "commit": "6c96565",
      "what": "solve(x > 0 --> -x < 0) returned True for x :: nat: uminus (declared at every type, unspecified on nat) was translated as integer negation"},
-    {"status": "fixed", "key": "sympy:foreign-variable", "commit": "fixes/C06-10.patch",
+    {"status": "fixed", "key": "sympy:foreign-variable", "commit": "6fece0e",
      "what": "with x Mem real_closed_interval 0 1 the sympy step proved y / y > 0, ~(1 / y = 0), 1 / y * y >= 1 (false at y = 0): divisors were checked for zeros in x only"},
-    {"status": "fixed", "key": "sympy:sqrt-log-domains", "commit": "fixes/C06-11.patch",
+    {"status": "fixed", "key": "sympy:sqrt-log-domains", "commit": "1e0e66f",
      "what": "solve_goal proved sqrt(-1) * sqrt(-1) = -1, sqrt x * sqrt x = x, exp(log x) = x, x ^ (1/2) * x ^ (1/2) = x: SymPy's complex sqrt/log against the library's total real functions"},
 ]
